@@ -5,6 +5,41 @@ DEPS = ("Trusted base: rustc 1.97 nightly (type checker, const evaluator, match 
         "serde_bytes 0.11.19, cosey 0.3.2, iso7816 0.1.4 for value-level encoding/decoding. ")
 
 CLAIMS = {
+    "C05": {
+        "level": "other",
+        "technique": "static decision-table extraction of the error conversion expanded over every cbor_smol::Error variant; funnel (error-discipline) rule over all result and `?` sites of Request::deserialize; required-set agreement of the generated decoders",
+        "text": "Decides that the only statuses a rejected request can carry are 0x01/0x14/0x12, which fault class selects which (conversion table total over the foreign error enum), that every error exit of the request decoder goes through that conversion with a fixed constructor, "
+                "and that exactly the specification's required members have a missing_field exit (all request and nested types, 9 configurations). Which cbor_smol::Error a given malformed input raises is the dependency's and is not decided.",
+        "note": DEPS + "Relies on cbor-smol mapping serde's missing_field to Error::SerdeMissingField.",
+    },
+    "C06": {
+        "level": "other",
+        "technique": "static shape / who-may-call rule on the derive-generated decoders of the host-extensible map types (typed HIR): unknown name -> __ignore, value consumed as IgnoredAny, no unknown_field error, map entry point",
+        "text": "Decides the whole /repo-side lever of the property for the seven host map types in all configurations: nothing in the generated decoders rejects or mis-consumes an unknown member. "
+                "That the generic skipper consumes exactly one item for every CBOR value is cbor-smol's and is not decided.",
+        "note": DEPS + "Not decided: cbor-smol's ignore* routines.",
+    },
+    "C12": {
+        "level": "other",
+        "technique": "static table agreement on rustc-evaluated field types (const generics, aliases, constants resolved) and decoded types vs an independent limits table; who-may-alter rule on custom decoders",
+        "text": "Decides every capacity and integer width the property lists, as the compiler evaluates them (so const/type indirection is invisible), in the struct definition and in the generated decoder, "
+                "and that only the documented members/types have custom (lossy) decoders. Accept-at-capacity / reject-above behaviour of the containers is the dependencies' and is not decided.",
+        "note": DEPS + "Not decided: heapless / heapless-bytes / serde_bytes capacity enforcement, cbor-smol integer range checks.",
+    },
+    "C15": {
+        "level": "other",
+        "technique": "static sibling-symmetry analysis between the Serialize and Deserialize tables of every bidirectional type (typed HIR), inverse string tables, discriminant tables, canonical emission order",
+        "text": "Decides that both directions of all 27+ bidirectional types implement the same key<->field relation with skippable-iff-optional members, same field types and canonical emission order, and that enum tables are mutually inverse, in all 9 configurations. "
+                "Equality for every leaf value rests on the symmetry of the dependency codecs and is not decided.",
+        "note": DEPS + "Not decided: value-level symmetry of leaf codecs.",
+    },
+    "C16": {
+        "level": "proof",
+        "technique": "static cross-configuration diff of the extracted generators (encode/decode tables, evaluated types, discriminants, string tables, constants) over all pairs of feature configurations",
+        "text": "Finite and complete: all 28 pairs of the 8 wire configurations plus the std/arbitrary corner, every type present in both, every common member: identical key, optionality, evaluated type, lossy wiring and relative order. "
+                "Comparing the generators of all transcripts is strictly stronger than comparing sampled transcripts; one documented capacity-only difference is whitelisted.",
+        "note": DEPS + "Relative to the tables being what the derives generate in each configuration (they are read from the compiled program, not assumed).",
+    },
     "C01": {
         "level": "other",
         "technique": "static table agreement: decoder tables (key -> field, required, decoded type, lossy wiring) read from the derive-generated visit_map/visit_str bodies in typed HIR vs an independent parameter table; path-literal analysis of the command switch",
